@@ -320,42 +320,29 @@ def mergeRemarkWarnings (errs : List PDiag) : List PDiag :=
   if long.isEmpty then rest
   else rest ++ [⟨.generalWarning, "Remark too long", long.flatMap (·.quoted)⟩]
 
-/-- `add_modifications` -/
+/-- `add_modifications`: a MODRES record is applied to every chain with that id (all models), every residue
+with that id and every conformer with that name -/
 def addModifications (p : PDB) (mods : List ((Nat × List Char) × LexItem)) : PDB × List PDiag :=
   mods.foldl (fun (acc : PDB × List PDiag) (m : (Nat × List Char) × LexItem) =>
     let (p, errs) := acc
     match m.2 with
     | .modres resName chain seqNum insert std comment =>
-      let notFound := (p, errs ++ [PDiag.mk .invalidating "Modified residue could not be found" [m.1]])
       let cid := String.ofList chain
-      -- first chain (all models) with that id, first residue with that id, first conformer with that name
-      let chains := p.chains
-      match chains.findIdx? (·.id == cid) with
-      | none => notFound
-      | some gi =>
-        match chains[gi]? with
-        | none => notFound
-        | some ch =>
-          match ch.residues.findIdx? (fun r => r.serial == seqNum && r.icode == insert.map String.ofList) with
-          | none => notFound
-          | some ri =>
-            match ch.residues[ri]? with
-            | none => notFound
-            | some r =>
-              match r.conformers.findIdx? (·.name == String.ofList resName) with
-              | none => notFound
-              | some fi =>
-                if validText std && validText comment then
-                  -- rebuild: replace in the gi-th chain of the flattened chain list
-                  let upd (c : Chain) : Chain := { c with residues := c.residues.modify ri fun r =>
-                    { r with conformers := r.conformers.modify fi fun f =>
-                      { f with modification := some (String.ofList std, String.ofList comment) } } }
-                  let (ms, _) := p.models.foldl (fun (a : List Model × Nat) (mm : Model) =>
-                    let base := a.2
-                    let cs := (List.range mm.chains.length).zip mm.chains |>.map fun (k, c) => if base + k == gi then upd c else c
-                    (a.1 ++ [{ mm with chains := cs }], base + mm.chains.length)) ([], 0)
-                  ({ models := ms }, errs)
-                else (p, errs ++ [PDiag.mk .invalidating "Invalid characters" [m.1]])
+      let rname := String.ofList resName
+      let ic := insert.map String.ofList
+      let chains := p.chains.filter (·.id == cid)
+      let residues := chains.flatMap fun c => c.residues.filter fun r => r.serial == seqNum && r.icode == ic
+      let confs := residues.flatMap fun r => r.conformers.filter (·.name == rname)
+      let valid := validText std && validText comment
+      if !confs.isEmpty && !valid then (p, errs ++ [PDiag.mk .invalidating "Invalid characters" [m.1]])
+      else if chains.isEmpty || residues.isEmpty || confs.isEmpty then
+        (p, errs ++ [PDiag.mk .invalidating "Modified residue could not be found" [m.1]])
+      else
+        let updC (c : Chain) : Chain := if c.id == cid then
+          { c with residues := c.residues.map fun r => if r.serial == seqNum && r.icode == ic then
+            { r with conformers := r.conformers.map fun f => if f.name == rname then
+              { f with modification := some (String.ofList std, String.ofList comment) } else f } else r } else c
+        ({ models := p.models.map fun mm => { mm with chains := mm.chains.map updC } }, errs)
     | _ => (p, errs)) (p, [])
 
 /-- position in `pdb.atoms()` of the SG atom an SSBOND end names -/
